@@ -70,6 +70,27 @@ def gen_case(rng, cid, tier):
     return lines
 
 
+EXPLORE = [
+    # (scenario lines, quick runs, thorough runs): systematic depth-first enumeration of all schedules
+    (["pool 1", "job 0", "client w", "main e0"], 1500, 25000),
+    (["pool 1", "job 0", "client w", "client w", "main e0"], 1500, 25000),          # the D6 shape
+    (["pool 1", "client u", "client u", "main t"], 1500, 25000),                    # the D6b shape
+    (["pool 1", "job 0", "client u", "client w", "main e0 t"], 1000, 25000),
+    (["pool 2", "job 0", "job 1 e0", "main e1 w"], 1000, 25000),
+    (["pool 1", "job 0", "job 1 e0 t", "client w", "main e1 u"], 0, 25000),
+    (["pool 2", "job 0", "client e0 w", "main e0 w"], 0, 25000),
+]
+
+
+def explore_cases(tier):
+    cs = []
+    for i, (lines, q, t) in enumerate(EXPLORE):
+        n = q if tier == "quick" else t
+        if n:
+            cs.append([f"case x{i}"] + lines + [f"explore runs={n}", f"explore runs={max(n // 2, 1)} spur=1"])
+    return cs
+
+
 class C10(flow.Spec):
     pid = "C10"
     harness = dict(name="c10", sources=["c10.cpp"], flags=["-include", SHIM], repo_sources=["tlx/thread_pool.cpp"])
@@ -77,7 +98,10 @@ class C10(flow.Spec):
                        "0-3 client threads and the main thread issuing enqueue / loop_until_empty / loop_until_terminate / "
                        "terminate, run under several PRNG schedules (with sticky and spurious-wake-up variants); a case is "
                        "non-trivial when in some run a waiter really blocked on cv_finished_ and either two workers were "
-                       "busy at once or a job enqueued another job; distinct = distinct scenario + schedule lines")
+                       "busy at once or a job enqueued another job; distinct = distinct scenario + schedule lines; in "
+                       "addition a fixed list of tiny scenarios is explored systematically (depth-first over all "
+                       "scheduling and notify choices, with and without one spurious wake-up) up to a run budget, and "
+                       "the number of schedules must agree between implementation and model")
     assumptions = [
         "sequentially consistent interleavings at the granularity of synchronisation operations; weak-memory "
         "reorderings of the relaxed/acquire/release accesses are not covered",
@@ -101,8 +125,11 @@ class C10(flow.Spec):
 
     def cases(self, ctx, seed, tier, round_no=0):
         rng = random.Random(seed * 1000003 + round_no * 7919 + 10)
-        n = 250 if tier == "quick" else 4000
-        return [gen_case(rng, i, tier) for i in range(n)]
+        n = 700 if tier == "quick" else 10000
+        cs = [gen_case(rng, i, tier) for i in range(n)]
+        if round_no == 0:
+            cs += explore_cases(tier)
+        return cs
 
     def nontrivial(self, case, answers):
         for a in answers:
